@@ -51,7 +51,7 @@ PROPERTY_RULES: Dict[str, List[Scoped]] = {
         _r("COST-TRUTH", S_THL), _r("READONLY-INPUT", S_THL), _r("ITERATOR-REUSE", S_THL), _r("MEMO-KEY", S_THL),
         _r("DERIVED-QUERIES"), _r("OPTIONAL-CHECKED", S_THL), _r("RESULT-UNCONDITIONAL", S_THL),
         _r("ENUM-PLACEMENTS"),
-        _r("COST-GUARD", S_THL), _r("ENUM-NO-TRUNCATION", ("compute.exhaustive:", "compute.reconciliation:")), _r("HASH-IDENTITY", S_COMPUTE + S_MODEL),
+        _r("COST-GUARD", S_THL), _r("CANDIDATE-GUARDS", S_THL), _r("ENUM-NO-TRUNCATION", ("compute.exhaustive:", "compute.reconciliation:")), _r("HASH-IDENTITY", S_COMPUTE + S_MODEL),
     ],
     "C02": [
         _r("SENTINEL", S_SPFS, S_SUBSEQ), _r("COSTKEYS", S_SPFS), _r("PRUNE", S_SPFS), _r("EVENT-SIG", S_SPFS),
@@ -62,7 +62,7 @@ PROPERTY_RULES: Dict[str, List[Scoped]] = {
         _r("SOLVER-STATELESS", P_SPFS), _r("READONLY-GRAPH"),
         _r("COST-TRUTH", S_SPFS), _r("READONLY-INPUT", S_SPFS), _r("ITERATOR-REUSE", S_SPFS + S_MODEL), _r("MEMO-KEY", S_SPFS),
         _r("RESULT-UNCONDITIONAL", S_SPFS), _r("OPTIONAL-CHECKED", S_SPFS), _r("NONE-SENTINEL-TRUTH", S_SUBSEQ),
-        _r("EVENT-TABLE"), _r("ROOT-ORDER-SOURCE"), _r("COST-GUARD", S_SPFS), _r("OUTPUT-FLAG", S_SPFS),
+        _r("EVENT-TABLE"), _r("ROOT-ORDER-SOURCE"), _r("COST-GUARD", S_SPFS), _r("CANDIDATE-GUARDS", S_SPFS), _r("OUTPUT-FLAG", S_SPFS),
     ],
     "C03": [
         _r("READONLY-DECODE", S_USPFS), _r("COSTKEYS", S_USPFS), _r("PRUNE", S_USPFS), _r("EVENT-SIG", S_USPFS),
@@ -73,7 +73,7 @@ PROPERTY_RULES: Dict[str, List[Scoped]] = {
         _r("DECODE-CONTENT-FLOW"), _r("SOLVER-STATELESS", P_USPFS),
         _r("COST-TRUTH", S_USPFS), _r("READONLY-INPUT", S_USPFS), _r("ITERATOR-REUSE", S_USPFS + S_MODEL), _r("MEMO-KEY", S_USPFS),
         _r("RESULT-UNCONDITIONAL", S_USPFS), _r("ELEMENT-UPDATE", S_USPFS),
-        _r("EVENT-TABLE"), _r("COST-GUARD", S_USPFS), _r("OUTPUT-FLAG", S_USPFS), _r("SET-ALGEBRA-ARGS"),
+        _r("EVENT-TABLE"), _r("COST-GUARD", S_USPFS), _r("CANDIDATE-GUARDS", S_USPFS), _r("OUTPUT-FLAG", S_USPFS), _r("SET-ALGEBRA-ARGS"),
     ],
     "C04": [
         _r("DECODE-GUARD"), _r("DECODE-COMPLETE"), _r("LEAF-ANCHOR"), _r("SENTINEL"), _r("READONLY-DECODE"),
@@ -93,7 +93,7 @@ PROPERTY_RULES: Dict[str, List[Scoped]] = {
         _r("MEMO-KEY"), _r("EQ-BY-FIELDS"), _r("ITERATOR-REUSE", S_COMPUTE),
         _r("BASE-EXT-SHARE"), _r("RESULT-UNCONDITIONAL"),
         _r("ENUM-PLACEMENTS"),
-        _r("EVENT-TABLE"), _r("ENUM-NO-TRUNCATION", S_COMPUTE), _r("HASH-IDENTITY", S_COMPUTE + S_MODEL), _r("COST-GUARD"),
+        _r("EVENT-TABLE"), _r("ENUM-NO-TRUNCATION", S_COMPUTE), _r("HASH-IDENTITY", S_COMPUTE + S_MODEL), _r("COST-GUARD"), _r("CANDIDATE-GUARDS"),
     ],
     "C06": [
         _r("MODEL-TABLE"), _r("LABEL-SIBLINGS"), _r("EVENT-EXHAUSTIVE"), _r("EVENT-TABLE"), _r("CONSERVED-SIDE"),
@@ -125,13 +125,13 @@ PROPERTY_RULES: Dict[str, List[Scoped]] = {
         _r("COST-MONOTONE"), _r("MEMO-KEY"), _r("READONLY-INPUT"),
         _r("SORT-KEY-ALIGNED"),
         # a configuration and its mirror image are priced alike iff both are priced as the (orientation-free) model says
-        _r("EVENT-SIG"), _r("MODEL-TABLE"), _r("CONSERVED-SIDE"), _r("ITERATOR-REUSE", S_COMPUTE), _r("COST-GUARD"),
+        _r("EVENT-SIG"), _r("MODEL-TABLE"), _r("CONSERVED-SIDE"), _r("ITERATOR-REUSE", S_COMPUTE), _r("COST-GUARD"), _r("CANDIDATE-GUARDS"),
     ],
     "C10": [
         _r("BASE-EXT-SHARE"), _r("EVENT-SIG"), _r("COSTKEYS"), _r("SIBLING-PAIRING"), _r("READONLY-DECODE"),
         _r("SOLVER-STATELESS", P_SOLVE),
         _r("CLASS-DOMAIN"), _r("MIRROR"),
-        _r("EVENT-TABLE"), _r("DECODE-CONTENT-FLOW"), _r("COST-GUARD"),
+        _r("EVENT-TABLE"), _r("DECODE-CONTENT-FLOW"), _r("COST-GUARD"), _r("CANDIDATE-GUARDS"),
     ],
     "C11": [
         _r("DICT-KEYS"), _r("FIELDS-SERIALISED"), _r("TREE-WRITE-ARGS"), _r("ENUM-DISJOINT"), _r("MAPPING-KEYING"),
@@ -554,14 +554,17 @@ PROPERTY_INFO: Dict[str, Dict] = {
 # clauses added in the fourth round (rules derived from the mutation sweep and the fourth batch of seeded changes)
 _DECIDED_ROUND4 = {
     "C01": [
+        "every test that dominates a candidate in the table-filling functions is a leaf test, an ancestor-order predicate, the -1 sentinel or an infinity test - no pruning argument of another kind (CANDIDATE-GUARDS)",
         "the unit costs reach the recurrences through arithmetic only: no test depends on a value derived from the cost vector (COST-GUARD, interprocedural taint)",
         "the enumerator and the decoder have no early stop or count limit, and no hash() value is used as an identity (ENUM-NO-TRUNCATION, HASH-IDENTITY)",
     ],
     "C02": [
+        "every test that dominates a candidate in the table-filling functions is a leaf test, an ancestor-order predicate, the -1 sentinel or an infinity test - no pruning argument of another kind (CANDIDATE-GUARDS)",
         "a prescribed root synteny is used verbatim as the only root order (ROOT-ORDER-SOURCE); outputs carry ordered=True (OUTPUT-FLAG)",
         "the evaluator's event table that ranks the decoded solutions is the documented one (EVENT-TABLE); no cost-dependent test (COST-GUARD)",
     ],
     "C03": [
+        "every test that dominates a candidate in the table-filling functions is a leaf test, an ancestor-order predicate, the -1 sentinel or an infinity test - no pruning argument of another kind (CANDIDATE-GUARDS)",
         "set algebra on family sets never unpacks a synteny into characters (SET-ALGEBRA-ARGS); outputs carry ordered=False (OUTPUT-FLAG)",
         "the evaluator's event table that ranks the decoded solutions is the documented one (EVENT-TABLE); no cost-dependent test (COST-GUARD)",
     ],
@@ -570,6 +573,7 @@ _DECIDED_ROUND4 = {
         "optional dictionary keys are read only where present (KEY-GUARD); the ordered flag matches the solver (OUTPUT-FLAG); family sets are not unpacked into characters (SET-ALGEBRA-ARGS)",
     ],
     "C05": [
+        "every test that dominates a candidate in the table-filling functions is a leaf test, an ancestor-order predicate, the -1 sentinel or an infinity test - no pruning argument of another kind (CANDIDATE-GUARDS)",
         "no early stop / count limit in decoders and enumerators, no hash() identity, no cost-dependent pruning (ENUM-NO-TRUNCATION, HASH-IDENTITY, COST-GUARD); evaluator event table (EVENT-TABLE)",
     ],
     "C07": [
@@ -580,9 +584,11 @@ _DECIDED_ROUND4 = {
         "subtrees are never identified by the name of their root (NAME-AS-KEY); copies are lossless (COPY-FAITHFUL); enumerators have no early stop (ENUM-NO-TRUNCATION); costs survive the round trip (COST-PASSTHROUGH)",
     ],
     "C09": [
+        "every test that dominates a candidate in the table-filling functions is a leaf test, an ancestor-order predicate, the -1 sentinel or an infinity test - no pruning argument of another kind (CANDIDATE-GUARDS)",
         "no one-shot iterator is walked twice (child order would decide which decodings survive) and no cost-dependent test (ITERATOR-REUSE, COST-GUARD)",
     ],
     "C10": [
+        "every test that dominates a candidate in the table-filling functions is a leaf test, an ancestor-order predicate, the -1 sentinel or an infinity test - no pruning argument of another kind (CANDIDATE-GUARDS)",
         "children decode from the content stored for their parent (DECODE-CONTENT-FLOW); evaluator event table (EVENT-TABLE); no cost-dependent pruning (COST-GUARD)",
     ],
     "C11": [
